@@ -198,6 +198,10 @@ def run(tier, seed):
         bare.append({"fault": "template-identifier", "context": "bundled-macro-without-its-helpers", "text": text, "nforms": len(pre) + 2, "offender": None, "ndefs": 0, "bare": True})
     cases += bare
     jobs = [{"id": "c15", "interps": [{"stdlib": not cs.get("bare"), "natives": not cs.get("bare")}], "steps": [{"src": cs["text"]}], "fuel": 100000} for cs in cases]
+    from . import diff as _diff
+    for ji, j in enumerate(jobs):
+        if ji % 3 == 1 and not cases[ji].get("bare"):
+            _diff.age(j, rng, rng.choice([5, 60]))       # locations are relative to the text being evaluated, whatever was evaluated (and failed) before
     recs = core.run_jobs(jobs, "dev", timeout=900 if tier == "quick" else 3000, tag="c15")
     for cs, rec in zip(cases, recs):
         ctx.evaluations += 1
